@@ -33,7 +33,7 @@ REQUIRED = {"rerun.lists_exactly_unsuccessful": {"quick": 500, "thorough": 25000
             "rerun.lists_what_the_reference_model_says_failed": {"quick": 150, "thorough": 8000},
             "rerun.scenario_whose_hook_raised_is_listed": {"quick": 40, "thorough": 2000}}
 REQUIRED_SEEN = {"listed_status": ["failed", "error", "hook_error"], "feature_order": ["directory", "explicit_reversed"],
-                 "fail_fast_environment": ["feature", "rule"], "raising_hook_of_listed_scenario": ["before_tag", "after_tag", "before_scenario", "before_step"]}
+                 "fail_fast_environment": ["feature", "rule"], "rerun_loop_shape": ["input_only", "same_file_in_and_out", "same_file_in_and_out_by_config"], "raising_hook_of_listed_scenario": ["before_tag", "after_tag", "before_scenario", "before_step"]}
 NSHARDS = {"quick": 16, "thorough": 16}
 
 
@@ -143,9 +143,11 @@ def one_history(lab, mon, rng, case, stale, sample=False):
                 loc_name[str(sc.location)] = sc.name
         listed_names = [loc_name.get(l) for l in got]
         unique = len(set(status_of)) == sum(1 for f in feats for _ in f.walk_scenarios())
-        if unique and not (case.get("hook_fault") or case.get("fail_fast") or case.get("raising_cleanup") or case["cfg"].get("cafs")) \
-                and not (case["cfg"].get("stop") and order != "directory"):
-            pred = runmodel.predict(case["program"], case["cfg"])
+        if unique and not (case.get("hook_fault") or case.get("fail_fast") or case.get("raising_cleanup") or case["cfg"].get("cafs")):
+            # (the model runs the features in the order this run had them: explicit file order / sorted directory listing)
+            by_file = {f["file"]: f for f in case["program"]["features"]}
+            in_run_order = [by_file[os.path.basename(ft.filename)] for ft in feats if os.path.basename(ft.filename) in by_file]
+            pred = runmodel.predict(dict(case["program"], features=in_run_order), case["cfg"])
             model_failed = sorted(n for n, bad in pred.scen_failed.items() if bad)
             mon.check("rerun.lists_what_the_reference_model_says_failed", sorted(x or "?" for x in listed_names) == model_failed,
                       lambda: W(listed=listed_names, model=model_failed, statuses=status_of))
@@ -247,10 +249,26 @@ def subprocess_history(mon, rng, case):
             mon.count("subprocess.no_failures")
             return
         args2 = [a for a in case["args"] if not a.startswith("--tags") and a != "--stop" and a != "--dry-run"]
-        r2 = proj.run(args2 + ["@rerun.txt", "-f", "plain"])
+        loop = rng.choice(["input_only", "same_file_in_and_out", "same_file_in_and_out_by_config"])
+        if loop == "same_file_in_and_out":
+            # the usual "rerun until green" loop: the file is the input list AND the rerun report of the same run
+            extra2 = ["@rerun.txt", "-f", "rerun", "-o", "rerun.txt", "-f", "plain"]
+        elif loop == "same_file_in_and_out_by_config":
+            with open(os.path.join(proj.root, "behave.ini"), "w") as fh:
+                fh.write("[behave]\nformat = rerun\n    plain\noutfiles = rerun.txt\n")
+            extra2 = ["@rerun.txt"]
+        else:
+            extra2 = ["@rerun.txt", "-f", "plain"]
+        mon.seen("rerun_loop_shape", loop)
+        r2 = proj.run(args2 + extra2)
         if r2.get("timeout"):
             mon.note("subprocess watchdog fired (inconclusive case)")
             return
+        if loop != "input_only":
+            # outcomes are deterministic: what was listed fails again and is listed again
+            lines2 = read_rerun(os.path.join(proj.root, "rerun.txt"))
+            mon.check("rerun.subprocess_loop_lists_the_same_again", sorted(lines2 or []) == sorted(lines),
+                      lambda: RB.witness(case, loop=loop, first=lines, second=lines2, rc=(r1["rc"], r2["rc"]), stderr=r2["stderr"][-400:]))
         # scenarios entered in run 2 == scenarios at the listed locations (by first run's events: names of failing ones)
         entered2 = [e[2] for e in r2["events"] if e[0] == "hook" and e[1] == "before_scenario"]
         # expected: parse locations back to names via the files
@@ -307,7 +325,7 @@ def run(spec, mon):
             victim["file"] = "issue#%d.feature" % (12 + i)
             mon.seen("feature_file_name_class", "contains_hash")
         one_history(lab, mon, rng, case, stale=(i % 3 == 0), sample=(i == 2 and spec["shard"] == 0))
-    for i in range(1 if tier == "quick" else 25):
+    for i in range(2 if tier == "quick" else 25):
         gen = {"outcomes": outs, "max_features": 2, "p_nonpass": 0.5, "p_stepless": 0.0}
         case = RB.gen_case(rng, gen=gen, p_stop=0.0, p_dry=0.0, tags=False)
         subprocess_history(mon, rng, case)
